@@ -109,6 +109,8 @@ class Explorer:
         self.loop_budget = None
         self.concretize_digits = False
         self.ceil_range = None
+        self.shadow_defs = {}      # internal variable name -> how its value follows from the others (seeded paths)
+        self.shadow = ShadowModel(self) if getattr(self, "seed", None) else None
         self.param_first = False
         self.trig_ids = {}         # atom key -> ids of the circle / multiple-angle axioms of its tokens
         self.assumptions = []      # constraints stated by the harness (ranges, assume), as opposed to branch decisions
@@ -203,6 +205,59 @@ class Explorer:
         self.q_unknown += 1
         return "unknown", None
 
+    def check_abstract(self, goal, timeout_ms=2000):
+        """linear abstraction: every non-linear sub-term (product of two non-constants, quotient by a non-constant,
+        power) is replaced by a fresh real, equal terms by the same one; the rest is decided by simplex.  The
+        abstraction has more models than the path, so `unsat` is sound; anything else is no answer."""
+        table = {}
+        cache = {}
+
+        def ab(e):
+            k = e.get_id()
+            if k in cache:
+                return cache[k][1]
+            r = _ab(e)
+            cache[k] = (e, r)
+            return r
+
+        def _ab(e):
+            if z3.is_const(e) or z3.is_rational_value(e) or z3.is_int_value(e):
+                return e
+            kd = e.decl().kind()
+            ch = e.children()
+            nonlin = False
+            if kd == z3.Z3_OP_MUL and sum(1 for c in ch if not (z3.is_rational_value(c) or z3.is_int_value(c))) >= 2:
+                nonlin = True
+            elif kd == z3.Z3_OP_DIV and not z3.is_rational_value(ch[1]):
+                nonlin = True
+            elif kd == z3.Z3_OP_POWER:
+                nonlin = True
+            if nonlin:
+                key = e.sexpr()
+                if key not in table:
+                    table[key] = z3.Real("ab!%d" % len(table))
+                return table[key]
+            if not ch:
+                return e
+            return e.decl()(*[ab(c) for c in ch])
+        self.queries += 1
+        t0 = time.time()
+        sol = z3.Solver()
+        sol.set("timeout", timeout_ms)
+        try:
+            for c in self.cons:
+                sol.add(ab(c))
+            sol.add(ab(goal))
+            r = sol.check()
+        except z3.Z3Exception:
+            r = z3.unknown
+        self.solver_time += time.time() - t0
+        if r == z3.unsat:
+            self.q_unsat += 1
+            return "unsat"
+        self.queries -= 1       # no answer from the abstraction is not a solver verdict: not counted
+        return "unknown"
+
     def check_param(self, goal, timeout_ms=None):
         """query with the (cos, sin) tokens of free angle atoms replaced by the rational parametrisation
         ((1-u^2)/(1+u^2), 2u/(1+u^2)) of the unit circle at the finest sub-angle of each atom; the circle and
@@ -257,9 +312,17 @@ class Explorer:
                     tokvals.append((s, ps))
             self.queries += 1
             t0 = time.time()
+            fs = []
+            for c in self.cons:
+                if c.get_id() in dropped:
+                    continue
+                try:
+                    fs.append(cl.formula(c))
+                except (ratfun.Unsupported, sympy.PolynomialError, RecursionError, AttributeError, TypeError, ZeroDivisionError):
+                    pass        # a constraint that cannot be converted is left out (fewer hypotheses: sound for unsat)
             try:
-                fs = [cl.formula(c) for c in self.cons if c.get_id() not in dropped] + [cl.formula(goal)] + extra
-            except (ratfun.Unsupported, sympy.PolynomialError, RecursionError):
+                fs = fs + [cl.formula(goal)] + extra
+            except (ratfun.Unsupported, sympy.PolynomialError, RecursionError, AttributeError, TypeError, ZeroDivisionError):
                 self.q_unknown += 1
                 return "unknown", None
             sol = z3.SolverFor("QF_NRA") if not (self.has_int and _mentions_int(fs)) else z3.Solver()
@@ -357,6 +420,14 @@ class Explorer:
             self.loop_budget -= 1
             if self.loop_budget < 0:
                 raise Unsupported("decision budget exhausted")
+        if self.shadow is not None:
+            # seeded path: follow the branch the seed input takes (its feasibility is witnessed by the seed); the
+            # other side is not explored from here
+            sv = self.shadow.decide(cond)
+            if sv is not None:
+                self.trace.append(sv)
+                self.cons.append(cond if sv else z3.Not(cond))
+                return sv
         ncond = z3.Not(cond)
         m = self.model
         mt = None
@@ -432,6 +503,78 @@ class Explorer:
                 out = ("exc", e)
             results.append(PathResult(list(self.trace), out[0], out[1], self))
         return results
+
+
+class ShadowModel:
+    """values of every solver variable of a path at a concrete seed input: inputs from the seed, internal variables
+    (tokens, roots, inverse-trig angles, modulo parts) from their defining terms, in double precision.  Used only to
+    choose which branch a seeded path follows."""
+
+    def __init__(self, ex):
+        self.ex = ex
+        self.vals = {}
+
+    def _value(self, const):
+        name = const.decl().name()
+        if name in self.vals:
+            return self.vals[name]
+        seed = self.ex.seed
+        if name in seed:
+            v = seed[name]
+        else:
+            d = self.ex.shadow_defs.get(name)
+            if d is None:
+                raise KeyError(name)
+            if d[0] == "sqrt":
+                v = math.sqrt(max(self.num(d[1]), 0.0))
+            elif d[0] == "cos":
+                v = math.cos(self.num(d[1]))
+            elif d[0] == "sin":
+                v = math.sin(self.num(d[1]))
+            elif d[0] == "angle":
+                v = math.atan2(self.num(d[2]), self.num(d[1]))
+            elif d[0] == "modk":
+                v = int(math.floor(self.num(d[1]) / self.num(d[2])))
+            elif d[0] == "modr":
+                a, m = self.num(d[1]), self.num(d[2])
+                v = a - m * math.floor(a / m)
+            else:
+                raise KeyError(name)
+        self.vals[name] = v
+        return v
+
+    def _subst(self, t):
+        todo, seen, pairs = [t], set(), []
+        while todo:
+            e = todo.pop()
+            if e.get_id() in seen:
+                continue
+            seen.add(e.get_id())
+            if z3.is_const(e) and e.decl().kind() == z3.Z3_OP_UNINTERPRETED:
+                v = self._value(e)
+                if z3.is_int(e):
+                    pairs.append((e, z3.IntVal(_int(v))))
+                else:
+                    pairs.append((e, qval(Fraction(_float(v)))))
+            else:
+                todo.extend(e.children())
+        return z3.simplify(z3.substitute(t, *pairs)) if pairs else z3.simplify(t)
+
+    def num(self, t):
+        if not z3.is_expr(t):
+            return _float(t)
+        return z3num_to_float(self._subst(t))
+
+    def decide(self, cond):
+        try:
+            v = self._subst(cond)
+        except (KeyError, z3.Z3Exception, ValueError, ZeroDivisionError, OverflowError):
+            return None
+        if z3.is_true(v):
+            return True
+        if z3.is_false(v):
+            return False
+        return None
 
 
 class ParamModel:
@@ -570,6 +713,8 @@ class SymReal(_float):
         m = lift(o)
         k = z3.Int(EX.fresh_name("modk"))
         r = z3.Real(EX.fresh_name("modr"))
+        EX.shadow_defs[k.decl().name()] = ("modk", s.e, m)
+        EX.shadow_defs[r.decl().name()] = ("modr", s.e, m)
         EX.has_int = True
         EX.add(s.e == z3.ToReal(k) * m + r, r >= 0, r < m)
         return SymReal(r)
@@ -1084,6 +1229,7 @@ def sym_sqrt(x):
         raise ValueError("math domain error")
     y = z3.Real(EX.fresh_name("sqrt"))
     EX.nonlinear = True
+    EX.shadow_defs[y.decl().name()] = ("sqrt", x.e)
     EX.add(y >= 0, y * y == x.e)
     EX.sqrtcache[k] = y
     return SymReal(y)
@@ -1203,6 +1349,7 @@ def sym_hypot(x, y):
 def linear_form(e):
     """-> (dict key->(atom, Fraction), const Fraction) or None"""
     e = z3.simplify(e, som=True)
+    e = _cancel_nonlinear(e)
     terms = e.children() if z3.is_app_of(e, z3.Z3_OP_ADD) else [e]
     coeffs = {}
     const = Fraction(0)
@@ -1230,7 +1377,57 @@ def linear_form(e):
             coeffs[k] = (atom, coeffs[k][1] + q)
         else:
             coeffs[k] = (atom, q)
+    # a coefficient one float rounding away from a small rational (e.g. fl(360/tau) * tau / 360) is that rational
+    # (exact reals stand for the floats; same convention as for constants within 1e-12 of a quarter turn)
+    for k, (atom, q) in list(coeffs.items()):
+        if q.denominator > 12 and q != 0:
+            sn = q.limit_denominator(12)
+            if sn != 0 and abs(q - sn) <= abs(q) * Fraction(1, 10 ** 12):
+                coeffs[k] = (atom, sn)
     return coeffs, const
+
+
+_CANCEL_CACHE = {}
+
+
+def _has_nonlinear(e):
+    todo = [e]
+    seen = set()
+    while todo:
+        t = todo.pop()
+        if t.get_id() in seen:
+            continue
+        seen.add(t.get_id())
+        k = t.decl().kind()
+        if k == z3.Z3_OP_DIV and not z3.is_rational_value(t.children()[1]):
+            return True
+        if k == z3.Z3_OP_MUL and sum(1 for c in t.children() if not z3.is_rational_value(c)) >= 2:
+            return True
+        todo.extend(t.children())
+    return False
+
+
+def _cancel_nonlinear(e):
+    """an angle such as  t0 + sweep * ((psi - t0) / sweep)  is linear after cancellation (the engine's division has
+    already forked on a zero divisor)"""
+    if not _has_nonlinear(e):
+        return e
+    key = e.sexpr()
+    if key in _CANCEL_CACHE:
+        return _CANCEL_CACHE[key][1]
+    out = e
+    try:
+        import sympy
+        from . import ratfun
+        cl = ratfun.Clearer()
+        f = sympy.cancel(sympy.together(cl.term(e)))
+        n, d = sympy.fraction(f)
+        if d.is_Rational:
+            out = z3.simplify(cl.to_z3(sympy.expand(n / d)), som=True)
+    except Exception:
+        out = e
+    _CANCEL_CACHE[key] = (e, out)
+    return out
 
 
 def _cmul(a, b):
@@ -1254,6 +1451,8 @@ def _atom_token(atom):
     c = z3.Real(EX.fresh_name("cos"))
     s = z3.Real(EX.fresh_name("sin"))
     EX.nonlinear = True
+    EX.shadow_defs[c.decl().name()] = ("cos", atom)
+    EX.shadow_defs[s.decl().name()] = ("sin", atom)
     circ = c * c + s * s == 1
     EX.add(circ)
     EX.trig_ids.setdefault(k, []).append(circ.get_id())
@@ -1276,6 +1475,8 @@ def _subatom_token(atom, q):
     c = z3.Real(EX.fresh_name("cos"))
     s = z3.Real(EX.fresh_name("sin"))
     EX.nonlinear = True
+    EX.shadow_defs[c.decl().name()] = ("cos", atom / q)
+    EX.shadow_defs[s.decl().name()] = ("sin", atom / q)
     full = _atom_token(atom)
     p = _cpow((c, s), q)
     axs = [c * c + s * s == 1, z3.simplify(p[0]) == full[0], z3.simplify(p[1]) == full[1]]
@@ -1401,6 +1602,7 @@ def sym_tan(x):
 
 def _new_angle(kind, c, s, lo, hi, lo_strict, hi_strict):
     th = z3.Real(EX.fresh_name(kind))
+    EX.shadow_defs[th.decl().name()] = ("angle", c, s)
     EX.add(th > lo if lo_strict else th >= lo, th < hi if hi_strict else th <= hi)
     EX.angle_atoms[th.sexpr()] = (c, s)
     return th
